@@ -444,6 +444,9 @@ impl StrategyPlanner {
             if let Ok(dest_scanner) = crate::sync::scanner::Scanner::new(dest_root).scan_streaming()
             {
                 for dest_file in dest_scanner.flatten() {
+                    if crate::sync::is_sy_metadata(&dest_file.relative_path) {
+                        continue;
+                    }
                     // Check Bloom filter first (O(1), no false negatives)
                     if !source_bloom.contains(&dest_file.relative_path) {
                         // Definitely not in source - safe to delete
@@ -479,6 +482,9 @@ impl StrategyPlanner {
             if let Ok(dest_scanner) = crate::sync::scanner::Scanner::new(dest_root).scan_streaming()
             {
                 for dest_file in dest_scanner.flatten() {
+                    if crate::sync::is_sy_metadata(&dest_file.relative_path) {
+                        continue;
+                    }
                     if !source_paths.contains(&dest_file.relative_path) {
                         deletions.push(SyncTask {
                             source: None,
